@@ -273,6 +273,8 @@ def rule_polarity(repo: Repo, rid: str = "C01.polarity") -> RuleResult:
     ok_not, not_value = repo.const_value(repo.module("lisp_parsers.parsing_utils").name, "NOT_OPERATOR")
     not_value = not_value if ok_not else "not"
 
+    kinds_seen: Set[Tuple[str, str]] = set()
+
     def is_not_const(e) -> bool:
         return (isinstance(e, ast.Name) and e.id == "NOT_OPERATOR") or (isinstance(e, ast.Constant) and e.value == not_value)
 
@@ -308,41 +310,50 @@ def rule_polarity(repo: Repo, rid: str = "C01.polarity") -> RuleResult:
             r_pos = G.reach({"not": False}) if nvars else set(g.nodes())
             for c in calls:
                 cn = g.node_containing(c)
-                under_not = cn in r_not and cn not in r_pos
-                under_pos = cn in r_pos and bool(nvars)  # any arm that is taken when the head is not 'not'
                 ispos = L.arg_of(c, pup, "is_positive")
                 first = L.arg_of(c, pup, "untyped_predicate")
-                ftr = p.trace(first) if first is not None else set()
-                inner = any(x[-1] == "item:1" for x in ftr) and not any(x[-1] not in ("item:1",) and x[0].startswith("param:") and len(x) == 1 for x in ftr)
-                val = L.is_true_const(ispos) if ispos is not None else True
                 r.site(L.site(f, c, "literal sink"))
-                sample = {"function": f.qn, "call": unparse(c, 80), "under_not": under_not, "is_positive": val, "node_is_inner": inner}
-                if under_not:
-                    if val is False and inner:
-                        r.ok(sample)
-                    else:
-                        r.fail(Finding(rid, f, "not-arm:literal", f"under (not ...) the literal is built with is_positive={val} from "
-                                       f"{'the inner node' if inner else 'the outer node'}: {unparse(c, 70)}", node=c), sample)
-                elif under_pos:
-                    if val is True and not inner:
-                        r.ok(sample)
-                    else:
-                        r.fail(Finding(rid, f, "positive-arm:literal", f"outside (not ...) the literal is built with is_positive={val}"
-                                       f"{' from the inner node' if inner else ''}: {unparse(c, 70)}", node=c), sample)
+                if not nvars:
+                    kinds_seen.add(("literal", "pos"))
+                    r.ok({"function": f.qn, "call": unparse(c, 80), "no_not_test_in_scope": True})
+                    continue
+                # the call is judged under each value of the (not ...) test it can be reached with: polarity argument and node argument
+                # are evaluated under that valuation (constants, conditional expressions, locals such as `is_positive = head != 'not'`)
+                verdicts = []
+                fixed = ispos is None or isinstance(ispos, ast.Constant)
+                for is_not, seen_ in ((True, r_not), (False, r_pos)):
+                    if cn not in seen_:
+                        continue
+                    if fixed and is_not and cn in r_pos:
+                        continue    # an arm with a fixed polarity that is also taken when the head is not 'not' (it precedes the test): a positive arm
+                    valn = {"not": is_not}
+                    pv = G.value(valn, ispos, seen_) if ispos is not None else True
+                    ftr = p.trace(first, under=G.under(valn, seen_)) if first is not None else set()
+                    inner = bool(ftr) and all(x[-1] == "item:1" or not x[0].startswith("param:") for x in ftr) and any(x[-1] == "item:1" for x in ftr)
+                    kinds_seen.add(("literal", "not" if is_not else "pos"))
+                    verdicts.append((is_not, pv, inner))
+                sample = {"function": f.qn, "call": unparse(c, 80), "verdicts": [(a_, str(b_) if not isinstance(b_, bool) else b_, c_) for a_, b_, c_ in verdicts]}
+                bad = None
+                for is_not, pv, inner in verdicts:
+                    if not isinstance(pv, bool):
+                        bad = ("unguarded:literal", f"{unparse(c, 70)}: the polarity argument is not decided by the (not ...) test")
+                    elif is_not and not (pv is False and inner):
+                        bad = ("not-arm:literal", f"under (not ...) the literal is built with is_positive={pv} from {'the inner node' if inner else 'the outer node'}: {unparse(c, 70)}")
+                    elif (not is_not) and not (pv is True and not inner):
+                        bad = ("positive-arm:literal", f"outside (not ...) the literal is built with is_positive={pv}{' from the inner node' if inner else ''}: {unparse(c, 70)}")
+                    if bad:
+                        break
+                if bad:
+                    r.fail(Finding(rid, f, bad[0], bad[1], node=c), sample)
                 else:
-                    if ispos is None or isinstance(ispos, ast.Constant):
-                        if nvars:
-                            r.fail(Finding(rid, f, "unguarded:literal", f"{unparse(c, 70)} is reachable both under and outside (not ...) with a fixed polarity", node=c), sample)
-                        else:
-                            r.ok(sample)
-                    else:
-                        r.ok(sample)
+                    r.ok(sample)
             for c in adds:
                 cn = g.node_containing(c)
                 which = c.func.value.attr
                 under_not = cn in r_not and cn not in r_pos
                 under_pos = cn in r_pos and cn not in r_not
                 r.site(L.site(f, c, "(in)equality sink"))
+                kinds_seen.add(("pair", which))
                 # elements: (X[1], X[2]) of the node whose head is '='
                 elts = c.args[0].elts if c.args and isinstance(c.args[0], ast.Tuple) else []
                 idx = []
@@ -356,7 +367,10 @@ def rule_polarity(repo: Repo, rid: str = "C01.polarity") -> RuleResult:
                 else:
                     r.fail(Finding(rid, f, f"equality-polarity:{which}", f"{which}.add is reached {'under' if under_not else 'outside'} (not ...) "
                                    f"with operands {idx}", node=c), sample)
-    r.require_sites(8)
+    if not any(k == "literal" for k, _ in kinds_seen) or not any(k == "pair" for k, _ in kinds_seen):
+        raise AnalysisError(f"rule {rid}: literal sinks / (in)equality sinks not found in the precondition / effect parsers (seen {sorted(kinds_seen)}) "
+                            f"-- the anchors this rule needs have vanished")
+    r.require_sites(4)
     return r
 
 
